@@ -491,3 +491,102 @@ func (w *World) argAtRoot(lc liftedCall, idx int) *Term {
 	}
 	return t
 }
+
+// ExpandCalls: disjunctive expansion of summary atoms. Every alternative that carries an atom
+// b:g(args) / n:g(args) for a module function g is replaced by its conjunction with each
+// alternative of g's summary for that class (parameters substituted by the arguments), up to
+// `depth` levels. Unlike importSummary this multiplies alternatives; rules use it when the
+// disjunction inside a delegating helper matters.
+func (w *World) ExpandCalls(d DNF, depth int, keep func(*Term) bool) DNF {
+	for round := 0; round < depth; round++ {
+		changed := false
+		var out DNF
+		for _, a := range d {
+			var key string
+			for k, t := range a.terms {
+				if (strings.HasPrefix(k, "b:") || strings.HasPrefix(k, "n:")) && t != nil && t.Op == OpCall {
+					if g := w.FE.calleeFunc(t); g != nil && w.P.IsLib(g) && len(g.Blocks) > 0 && !(keep != nil && keep(t)) {
+						if key == "" || k < key {
+							key = k
+						}
+					}
+				}
+			}
+			if key == "" {
+				out = append(out, a)
+				continue
+			}
+			t := a.terms[key]
+			g := w.FE.calleeFunc(t)
+			class := ""
+			switch {
+			case strings.HasPrefix(key, "b:") && a.facts[key]:
+				class = "true"
+			case strings.HasPrefix(key, "b:"):
+				class = "false"
+			case a.facts[key]:
+				class = "nonnil"
+			default:
+				class = "nil"
+			}
+			sum := w.FE.Summary(g, 0, class, 0)
+			if sum == nil {
+				out = append(out, a)
+				continue
+			}
+			sub := map[string]*Term{}
+			for i, prm := range g.Params {
+				if i < len(t.Args) {
+					sub[w.TS.Of(prm).String()] = t.Args[i]
+				}
+			}
+			changed = true
+			for _, sa := range sum {
+				r := a.clone()
+				delete(r.facts, key)
+				delete(r.terms, key)
+				ok := true
+				for k, v := range sa.facts {
+					nt := sa.terms[k].Subst(sub)
+					var ats []atom
+					if strings.HasPrefix(k, "b:") {
+						// renormalise: the substitution may have produced (x == true), constants, nil tests
+						ats = w.FE.decompose(nt, v)
+					} else {
+						ats = []atom{{k[:2] + nt.String(), nt, v}}
+					}
+					for _, at := range ats {
+						if at.key == "⊥" {
+							ok = false
+							break
+						}
+						if at.term != nil && at.term.Op == OpConst && (at.term.Name == "true" || at.term.Name == "false") {
+							if (at.term.Name == "true") != at.sign {
+								ok = false
+								break
+							}
+							continue
+						}
+						if cur, have := r.facts[at.key]; have && cur != at.sign {
+							ok = false
+							break
+						}
+						r.facts[at.key] = at.sign
+						r.terms[at.key] = at.term
+					}
+					if !ok {
+						break
+					}
+				}
+				if ok {
+					out = append(out, r)
+				}
+			}
+		}
+		d = out
+		if !changed {
+			break
+		}
+	}
+	return d
+}
